@@ -529,7 +529,7 @@ func main() {
 			if t == "thorough" {
 				return 1800
 			}
-			return 240
+			return 900
 		},
 		Finish: func(t string, agg *explore.Aggregate) ([]explore.Violation, string) {
 			if agg.Outcomes["selects-some"] < 100 {
